@@ -55,6 +55,18 @@ impl Elem for u32 {
         (*self >> 8) as u8
     }
 }
+/// one-byte element (id only): keeps a 16-bucket table within 40 bytes
+impl Elem for u8 {
+    fn mk(id: u8, _aux: u8) -> Self {
+        id
+    }
+    fn id(&self) -> u8 {
+        *self
+    }
+    fn aux(&self) -> u8 {
+        0
+    }
+}
 impl Elem for u16 {
     fn mk(id: u8, aux: u8) -> Self {
         id as u16 | (aux as u16) << 8
@@ -368,6 +380,32 @@ pub struct Spec<'a> {
     /// tags, elements and hashes stay symbolic. Used where a fully symbolic pattern does not
     /// finish (in-place rehash at two groups); the patterns used are listed per instance.
     pub layout: Option<(u64, u64)>,
+    /// with `layout`: ids (= rank among the FULL slots) and tags are concrete as well; `h` must
+    /// then come from `hashes_with_tags` (concrete 7 tag bits per id, symbolic position bits)
+    pub concrete_tags: Option<u8>,
+}
+
+/// tag assigned to id `k` under tag mode `m`: 0 = pairwise distinct, 1 = all equal (full tag
+/// collision), 2 = two classes
+pub fn tag_of_id(m: u8, k: usize) -> u8 {
+    if m == 0 {
+        (k as u8) * 9 + 1
+    } else if m == 1 {
+        0x2A
+    } else {
+        0x10 + (k as u8 & 1)
+    }
+}
+/// hash table with concrete tag bits (mode m) and symbolic position bits
+pub fn hashes_with_tags(m: u8) -> [u64; K] {
+    let low: [u64; K] = kani::any();
+    let mut h = [0u64; K];
+    let mut k = 0;
+    while k < K {
+        h[k] = ((tag_of_id(m, k) as u64) << 57) | (low[k] >> 7);
+        k += 1;
+    }
+    h
 }
 
 /// Array image of a table state.
@@ -562,9 +600,16 @@ pub fn fill<E: Elem, A: Allocator, const N: usize>(raw: &mut RawTable<E, A>, sp:
     let x: [u8; N] = kani::any();
     if let Some((fm, dm)) = sp.layout {
         let mut i = 0;
+        let mut rank = 0usize;
         while i < N {
             if (fm >> i) & 1 == 1 {
-                kani::assume(c[i] < 0x80);
+                if let Some(m) = sp.concrete_tags {
+                    e[i] = (rank % K) as u8;
+                    c[i] = tag_of_id(m, rank % K);
+                    rank += 1;
+                } else {
+                    kani::assume(c[i] < 0x80);
+                }
             } else if (dm >> i) & 1 == 1 {
                 c[i] = DELETED;
             } else {
